@@ -64,6 +64,7 @@ SELF_FIELDS = {
     "SHAGA": {"_pop_size": "int64", "_H_size": "int64", "_H_MR": "float64[:]", "_H_CR": "float64[:]", "_str_len": "int64",
               "_fitness_i": "float64[:]", "_population_g_i": "int8[:, :]"},
     "SelfCGA": {"_K": "float64", "_iters": "int64"},
+    "EvolutionaryAlgorithm": {"_pop_size": "int64", "_cpu_count": "int64"},
     "GeneticAlgorithm": {"_fitness_scale_i": "float64[:]", "_fitness_rank_i": "float64[:]", "_population_g_i": "int8[:, :]"},
     "PDPGA": {"_fitness_scale_i": "float64[:]", "_fitness_rank_i": "float64[:]", "_population_g_i": "int8[:, :]", "_fitness_i": "float64[:]"},
     "jDE": {"_pop_size": "int64", "_F": "float64[:]", "_CR": "float64[:]", "_t_F": "float64", "_t_CR": "float64", "_F_min": "float64", "_F_max": "float64"},
@@ -89,6 +90,8 @@ METHOD_TARGETS_0 = [
     ("optimizers/_shaga.py", "SHAGA", "_get_new_individ_g", "SHAGA_get_new_individ_g", "int8[:](int8[:], float64, float64)", {}),
     ("optimizers/_differentialevolution.py", "DifferentialEvolution", "_get_new_individ_g", "DE_get_new_individ_g", "float64[:](float64[:], float64, float64)", {}),
     ("optimizers/_geneticalgorithm.py", "GeneticAlgorithm", "_get_new_individ_g", "GA_get_new_individ_g", "int8[:]()", {}),
+    # n_jobs normalisation (C16): os.cpu_count() is the parameter `cpu`; `raise` is the failing computation
+    ("base/_ea.py", "EvolutionaryAlgorithm", "_get_n_jobs", "EA_get_n_jobs", "int64(int64)", {}),
     ("optimizers/_pdpga.py", "PDPGA", "_choice_parent", "PDPGA_choice_parent", "float64(float64[:])", {}),
     ("optimizers/_pdpga.py", "PDPGA", "_get_new_individ_g", "PDPGA_get_new_individ_g", "(float64, int8[:])()", {}),
 ]
@@ -106,6 +109,7 @@ POOL_LOCALS = {"GA_get_new_individ_g": [
     ("mutation_func, proba, is_constant_rate = self._mutation_pool[specified_mutation]",
      [("mutation_func", ("F", "list Z -> Q -> M (list Z)", "int8[:]", ["int8[:]", "float64"])), ("proba", "float64"), ("is_constant_rate", "boolean")]),
 ]}
+C16_METHODS = ["EA_get_n_jobs"]
 C07_METHODS = ["SHADE_get_new_individ_g", "DE_get_new_individ_g"]
 POOL_LOCALS["PDPGA_get_new_individ_g"] = POOL_LOCALS["GA_get_new_individ_g"]
 # `self._f.append(E)` exactly once on every path: the appended value is part of the result — the function returns (appended value, result)
@@ -118,7 +122,7 @@ CALL_SPECS = {
     ("lehmer_mean", ("x",)): "lehmer_mean_unweighted",
     ("lehmer_mean", ("weight", "x")): "lehmer_mean_weighted",
 }
-C15_METHODS = [t[3] for t in METHOD_TARGETS if t[3] not in C14_METHODS + C07_METHODS + C06_METHODS]
+C15_METHODS = [t[3] for t in METHOD_TARGETS if t[3] not in C14_METHODS + C07_METHODS + C06_METHODS + C16_METHODS]
 
 # functions without an @njit signature: parameter / return types written as the signature would be
 MANUAL_SIGS = {
@@ -288,7 +292,7 @@ def assigned_vars(stmts):
 def has_flow(stmts, loop_level=True):
     """does the block contain return, or break/continue belonging to the enclosing loop"""
     for s in stmts:
-        if isinstance(s, ast.Return):
+        if isinstance(s, (ast.Return, ast.Raise)):
             return True
         if isinstance(s, (ast.Break, ast.Continue)) and loop_level:
             return True
@@ -810,6 +814,10 @@ class Translator:
             if loop is None or loop.get("brk") is None:
                 raise Untranslatable(s, "break outside a for loop")
             return loop["brk"](sc)
+        if isinstance(s, ast.Raise):
+            if not fn.monadic:
+                raise NeedsMonad()
+            return "fail"                 # the exception leaves the function: no result (Py.fail)
         if isinstance(s, ast.Assert):
             if not fn.monadic:
                 raise NeedsMonad()
@@ -1347,6 +1355,10 @@ def specialise(node, cls, out_name, consts, method_fields):
             return self_.generic_visit(n)
 
         def visit_Call(self_, n):
+            if ast.unparse(n) == "cpu_count()" and cls is not None and "_cpu_count" in SELF_FIELDS[cls]:
+                if "_cpu_count" not in used_fields:
+                    used_fields.append("_cpu_count")
+                return ast.copy_location(ast.Name(id="self_cpu_count", ctx=ast.Load()), n)
             # self._m(...)  ->  Class_m(<fields of the callee>, ...)
             if isinstance(n.func, ast.Attribute) and isinstance(n.func.value, ast.Name) and n.func.value.id == "self":
                 key = (cls, n.func.attr)
